@@ -178,6 +178,22 @@ CLAIMS = {
     technique="registration-table coverage, return-kind provenance, one-sided-comparison (sign symmetry) lint on gates "
               "dominating the %z parse, provenance of the signed operand, flag-obligation (computed-then-ignored) check",
     ref="DESIGN.md 3/C14"),
+ "C20": dict(
+    text="Static inventory over a receiver-aware call graph with lock regions: every write to state shared between "
+         "threads (parser objects, fields, rule classes, ForwardRef objects, converter registries, module memos, "
+         "class-level containers reached through per-call objects) in a function reachable from the runtime entries "
+         "lies inside a `with <lock>` region, or in a function that at run time is only reached through one, or is an "
+         "allow-listed single-store publish (R20a); the double-checked fast path of first-use resolution: the pending "
+         "table read without the lock is only emptied by the lock holder, after every other step of the region (R20b); "
+         "the converter registry changes its list and resets its memo in one critical section, fills the memo under the "
+         "same lock after a scan under that lock, and reads it lock-free in one atomic operation (R20c); the parser "
+         "memo publishes a completely constructed parser with one store (R20d).",
+    note="Decides the absence of unsynchronised compound mutation of the anchored state, not the absence of failures "
+         "under all schedules (no interleaving is explored). Assumes construction of a class / parser object is "
+         "thread-confined until it is published; concurrent mutation of one user instance is out of scope.",
+    technique="call-graph reachability with lock-region cuts, shared-write inventory with ownership classification, "
+              "CFG order check of the double-checked fast path, lock-consistency check",
+    ref="DESIGN.md 3/C20"),
  "C15": dict(
     text="Static tables-and-shapes check of the JSON-Schema translator (not the value-level strictness): every validation "
          "keyword of the supported fragment is translated and CONSTRAINTS_MAP maps it to a constraint that implies its "
